@@ -468,3 +468,15 @@ def r6(ctx):
     for r in c11.r3(ctx):
         r.rule = "C05-R6"
         yield r
+
+
+REQ_HANDOFF = [
+    ("signature::sigv4_validate_request", True, r"CanonicalRequest::get_authenticator$", {1: "required_headers"}),
+    ("canonical::CanonicalRequest::get_authenticator", False, r"CanonicalRequest::get_auth_parameters$", {1: "signed_header_requirements"}),
+]
+
+
+@M.rule("C05-R7", "the caller's requirement set reaches the requirement checks as given")
+def r7(ctx):
+    for r in handoff_results(ctx, "C05-R7", REQ_HANDOFF, VIOL, PASS, site, "the signed-header requirements enforced are not the ones the server configured"):
+        yield r
